@@ -188,7 +188,7 @@ def rule_names_not_truncated(ctx):
             r.seen()
             dest = expr_str(g, x["a"][0])
             conds = [(expr_str(g, cn), pol) for cn, pol in g.guard_conds(g.nblock[x["i"]]) if cn is not None]
-            pre = any(pol is False and "strlen(" in c and ">= sizeof(" in c for c, pol in conds)
+            pre = any(pol is False and (re.search(r"strlen\(.*>= sizeof\(", c) or re.search(r"sizeof\(.*<= .*strlen\(", c)) for c, pol in conds)
             post = False
             # result variable
             ps = g.parents().get(x["i"]) or []
